@@ -106,6 +106,8 @@ def classified : List ((String × String × String) × String) := [
      "collectSort: inline_constant_buffers.sort() follows; sets are distinct map keys"),
   (("ir/src/name_generator.rs", "build", "for:&scopes|sorts:name_to_symbol_vec"),
      "insertOnly: per-scope naming depends on the scope alone (inner sort_by over distinct names); results keyed by distinct symbols; used_names_all_scopes is a set union"),
+  (("ir/src/name_generator.rs", "build", "for:usage.get_usage_for_function(id)"),
+     "insertOnly: the names of used functions / globals are inserted into the set used_names_all_scopes (since fix 6bac604); the set is only tested for membership by the local-variable pass (C15 build_scope_order_independent covers the new model)"),
   (("ir/src/usage_analysis.rs", "recurse", "for:&current_set.required"),
      "fixpoint: union of required sets, iterated until nothing changes"),
   (("ir/src/usage_analysis.rs", "recurse", "method:self.0.keys"),
